@@ -24,6 +24,7 @@ type Op struct {
 	WK  string      `json:"wk,omitempty"` // caller's write key
 	L   []string    `json:"l,omitempty"`  // list argument (parents …)
 	Sub []Op        `json:"sub,omitempty"`
+	Q   bool        `json:"q,omitempty"` // quiet: the world observes nothing after this step
 }
 
 func (o Op) Map() map[string]interface{} {
